@@ -76,14 +76,18 @@ def model_jobs(quick):
         ("m_mech_regroup", "lead", ["NoRegroupLead"], dict(deep, **mech)),
         ("m_mech_regroup_func", "lead", ["NoRegroupLead"], dict(MaxOps=3, KindsM=FUNC_KINDS, WithFunc=True, **mech)),
         ("m_neg_swapped", "negative", ["NoRegroup"], dict(MaxOps=2, Ladder="swapped")),
+        # (with the contract's `expression` rule the parentheses and_test/or_test/comparison add are
+        #  redundant; they matter together with the in_parenthesis heuristic of the current builders)
+        ("m_neg_andor", "negative", ["NoRegroup"],
+         dict(MaxOps=3, KindsM={"PAREN", "OR", "AND"}, WithFunc=True, OuterRule="startsends", AndOrParens=False)),
+        ("m_neg_cmp", "negative", ["NoRegroup"],
+         dict(MaxOps=3, KindsM={"PAREN", "CMP"}, WithFunc=True, OuterRule="startsends", CmpParens=False)),
     ]
     if not quick:
         jobs += [("m_contract_spellings", "contract", CONTRACT_INVS,
                   dict(MaxOps=3, CmpOpsM={1, exprtok.PCT_OP}, LogSpM={1, 2, 3})),
                  ("m_contract_func4", "contract", CONTRACT_INVS,
-                  dict(MaxOps=4, KindsM={"PAREN", "NEG", "ADD", "MUL"}, WithFunc=True)),
-                 ("m_neg_andor", "negative", ["NoRegroup"], dict(MaxOps=3, AndOrParens=False)),
-                 ("m_neg_cmp", "negative", ["NoRegroup"], dict(MaxOps=3, CmpParens=False))]
+                  dict(MaxOps=4, KindsM={"PAREN", "NEG", "ADD", "MUL"}, WithFunc=True))]
     return jobs
 
 
@@ -190,6 +194,53 @@ def validate(paths, tagbase):
                     raise common.MachineryFailure("two verdicts for trace %s" % p["tid"])
                 verdicts[p["tid"]] = p
     return verdicts, rs
+
+
+def tok_text(t):
+    c, i = t
+    if c in ("LP", "RP", "COMMA"):
+        return {"LP": "(", "RP": ")", "COMMA": ","}[c]
+    if c == "ATOM":
+        return exprtok.ATOMS.get(i) or exprtok.FUNC_ARGS.get(i) or "atom%d" % i
+    if c == "FUNC":
+        return exprtok.FUNCS.get(i, "f%d" % i)
+    if c in exprtok.LOGIC:
+        return exprtok.LOGIC[c].get(i, c)
+    if c == "CMP":
+        return exprtok.CMP_OPS.get(i, "cmp%d" % i)
+    return exprtok.ARITH.get(c, "-" if c == "NEG" else c)
+
+
+def canary():
+    """non-vacuity of (T): hand-made traces that TraceExpr must reject / accept with the named clause"""
+    A, B, C = ["ATOM", 1], ["ATOM", 2], ["ATOM", 7]
+    LP, RP = ["LP", 0], ["RP", 0]
+    eq, eq2 = ["CMP", 1], ["CMP", 2]
+    src1 = [LP, A, ["OR", 1], B, ["AND", 2], C, RP]
+    good1 = [LP, A, ["OR", 1], LP, B, ["AND", 1], C, RP, RP]
+    bad1 = [LP, LP, A, ["OR", 1], B, RP, ["AND", 1], C, RP]
+    src2 = [LP, A, eq, C, RP]
+    rows = [dict(src=src1, st=good1, pr=good1, rlok=True, rl=good1, want="ok"),
+            dict(src=src1, st=bad1, pr=bad1, rlok=True, rl=bad1, want="regroup"),
+            dict(src=src1, st=[LP, A, ["OR", 1], LP, B, ["AND", 2], C, RP, RP], pr=good1, rlok=True, rl=good1, want="spelling"),
+            dict(src=src2, st=[LP, LP, A, eq2, C, RP, RP], pr=[], rlok=True, rl=[], want="spelling"),
+            dict(src=src2, st=[LP, A, RP, eq, LP, C, RP], pr=[], rlok=False, rl=[], want="outer-parens"),
+            dict(src=src2, st=[LP, LP, A, eq, C, RP, RP], pr=[LP, A, eq, C, RP], rlok=True, rl=[], want="printed"),
+            dict(src=src2, st=[LP, LP, A, eq, C, RP, RP], pr=[LP, LP, A, eq, C, RP, RP], rlok=False, rl=[], want="reload-rejected"),
+            dict(src=src2, st=[LP, LP, A, eq, C, RP, RP], pr=[LP, LP, A, eq, C, RP, RP], rlok=True, rl=[LP, A, eq, C, RP],
+                 want="reload-differs")]
+    d = os.path.join(tlc.BUILD, "traces", "c10")
+    os.makedirs(d, exist_ok=True)
+    p = os.path.join(d, "canary.ndjson")
+    with open(p, "w") as f:
+        for i, r in enumerate(rows):
+            f.write(json.dumps({k: v for k, v in dict(r, tid=i).items() if k != "want"}) + "\n")
+    verdicts, rs = validate([p], "c10_canary")
+    got = [verdicts.get(i, {}).get("c") for i in range(len(rows))]
+    want = [r["want"] for r in rows]
+    if got != want:
+        raise common.MachineryFailure("TraceExpr canary traces judged %r, expected %r" % (got, want))
+    return rs[0]
 
 
 def coarse_set(d):
@@ -368,7 +419,8 @@ def run(tier):
     # (M) runs in the background while the generated trees go through the real code
     jobs = model_jobs(quick)
     mex = ThreadPoolExecutor(max_workers=4 if quick else 3)
-    futs = [(name, kind, invs, mex.submit(model_run, "c10_" + name, invs, 2 if quick else 4, **kw))
+    futs = [(name, kind, invs, mex.submit(model_run, "c10_" + name, invs,
+                                          2 if quick else (6 if name == "m_contract" else 3), **kw))
             for name, kind, invs, kw in jobs]
     batch = Batch(ck, pool, "s%d" % seed)
     try:
@@ -392,7 +444,7 @@ def run(tier):
                 try:
                     for j, kinds in enumerate(ROOT_GROUPS):
                         q.put(("shapes", "a%d" % j, emit_shapes(ck, 4, seed, "c10_shapes_%d" % j, roots=kinds)))
-                    for j in range(6):
+                    for j in range(3):
                         q.put(("walks", "w%d" % j, emit_walks(ck, 100000, seed * 100 + j + 1, "c10_walks_%d" % j)))
                     q.put(None)
                 except BaseException as ex:  # noqa: BLE001
@@ -426,13 +478,18 @@ def run(tier):
             elif kind == "lead":
                 ls = [p for p in r.prints if isinstance(p, dict) and "lead" in p]
                 if r.violated and ls:
-                    it = exprtok.render([tuple(t) for t in ls[0]["src"]], random.Random(0))
-                    ck.notes.append("mechanism model (%s): %s violated, lead %s" % (name, r.violated, it))
+                    res = replay_tree((seed, 0, [tuple(t) for t in ls[0]["src"]], [0]))
+                    h = res["hosts"][0]
+                    same = h["status"] == "ok" and h["st"] == ls[0]["norm"]
+                    ck.notes.append("mechanism model (%s): %s violated, lead %s -> model predicts %r; real code stores %r: %s" % (
+                        name, r.violated, res["text"], " ".join(tok_text(t) for t in ls[0]["norm"]), h.get("stored"),
+                        "lead confirmed on the real code" if same else "NOT reproduced by the real code"))
                     leads.append({"src": ls[0]["src"], "norm": ls[0]["norm"], "ops": 0})
                 else:
                     ck.notes.append("mechanism model (%s): %s holds up to the bound" % (name, invs[0]))
         if leads:
             batch.process(leads, "leads", "l")
+        ck.add_tlc("trace_canary", canary())
     finally:
         pool.terminate()
         mex.shutdown(wait=False)
